@@ -1,5 +1,6 @@
 import SpdxVerif.Props.C10
 import SpdxVerif.Props.Consts
+import SpdxVerif.Props.C10Text
 #print axioms Spdx.C10.verdict_of_eval_eq
 #print axioms Spdx.C10.verdict_and
 #print axioms Spdx.C10.verdict_or
@@ -17,3 +18,10 @@ import SpdxVerif.Props.Consts
 #print axioms Spdx.C10.congr_or
 #print axioms Spdx.ConstsPin.expandAnd_ints
 #print axioms Spdx.ConstsPin.skipWhitespace_literals
+#print axioms Spdx.C10.parens_irrelevant
+#print axioms Spdx.C10.outer_spaces_irrelevant
+#print axioms Spdx.C10.satisfies_andText
+#print axioms Spdx.C10.satisfies_orText
+#print axioms Spdx.C10.satisfies_of_eval_eq
+#print axioms Spdx.C10.extract_set_of_leaves
+#print axioms Spdx.C10.leaves_distrib
